@@ -1161,7 +1161,16 @@ func (c *Ctx) checkGuardNamed(s *State, in ssa.Instruction, gf guardedField, bas
 
 // isFreshLocal: the object was allocated on this path by the function under verification.
 func (c *Ctx) isFreshLocal(s *State, base Term) bool {
-	return strings.HasPrefix(base.S, "alloc!") || strings.HasPrefix(base.S, "|alloc!")
+	b := base.S
+	// a sub-object (embedded struct field) of a freshly allocated object is as fresh as its owner
+	for strings.HasPrefix(b, "(|sub!") || strings.HasPrefix(b, "(sub!") || strings.HasPrefix(b, "(|sub|") {
+		i := strings.LastIndex(b, " ")
+		if i < 0 {
+			break
+		}
+		b = strings.TrimSuffix(b[i+1:], ")")
+	}
+	return strings.HasPrefix(b, "alloc!") || strings.HasPrefix(b, "|alloc!")
 }
 
 // clockRead models a read of the wall clock: a value not smaller than any earlier read
